@@ -71,7 +71,7 @@ func (g *control) proc(depth int, inLoop bool) psref.Tok {
 
 func (g *control) stmt(depth int, inLoop, first, last bool) []psref.Tok {
 	g.budget--
-	k := g.draw(32, "stmt")
+	k := g.draw(34, "stmt")
 	switch {
 	case k < 5:
 		return []psref.Tok{g.tr()}
@@ -193,6 +193,46 @@ func (g *control) stmt(depth int, inLoop, first, last bool) []psref.Tok {
 		default:
 			return []psref.Tok{psref.TL(name), psref.TX("load"), psref.TX("exec")}
 		}
+	case k == 32 || k == 33:
+		// An operator name given a new meaning without `def`: stored into
+		// userdict or a fresh dictionary with put, or as an entry of a << >>
+		// dictionary that is then pushed on the dictionary stack.  The name is
+		// then used (lookup is top-down through the dictionary stack).
+		g.feat["def"] = true
+		g.feat["shadow-without-def"] = true
+		g.feat["rebind-or-call"] = true
+		op := []string{"add", "pop", "dup", "exch", "count"}[g.draw(5, "shadowop")]
+		val := psref.TP(g.tr())
+		if g.draw(3, "shadowval") == 0 {
+			val = g.tr() // a plain value instead of a procedure
+		}
+		var toks []psref.Tok
+		pushed := false
+		switch g.draw(3, "shadowhow") {
+		case 0:
+			toks = []psref.Tok{psref.TX("userdict"), psref.TL(op), val, psref.TX("put")}
+		case 1:
+			g.feat["dictstack"] = true
+			toks = []psref.Tok{psref.TX("<<"), psref.TL(op), val, psref.TX(">>"), psref.TX("begin")}
+			pushed = true
+		default:
+			g.feat["dictstack"] = true
+			toks = []psref.Tok{psref.TI(2), psref.TX("dict"), psref.TX("dup"), psref.TL(op), val, psref.TX("put"), psref.TX("begin")}
+			pushed = true
+		}
+		toks = append(toks, g.tr(), g.tr())
+		switch g.draw(3, "shadowuse") {
+		case 0:
+			toks = append(toks, psref.TX(op))
+		case 1:
+			toks = append(toks, psref.TP(psref.TX(op)), psref.TX("exec"))
+		default:
+			toks = append(toks, psref.TL(op), psref.TX("load"))
+		}
+		if pushed && g.draw(4, "shadowend") != 0 {
+			toks = append(toks, psref.TX("end"), g.tr(), g.tr(), psref.TX(op))
+		}
+		return toks
 	case k == 30 || k == 31:
 		// A loop whose body is a single name, where running the named
 		// procedure changes what the name means (redefinition in the current
